@@ -289,7 +289,9 @@ Inductive op :=
 | OReset
 | OClear
 | OWriteTo (budget : Z)
-| OReadFrom (reads : list (list Z * Z * Z)).
+| OReadFrom (reads : list (list Z * Z * Z))
+| OUnmarshal (r : option (list Z)) (e : Z)   (* UnmarshalStream(rd): what rd.ReadBytes returned: Some bytes | None and error e *)
+| OMarshal.                                  (* MarshalStream(w) into a Writer that accepts everything *)
 
 Inductive ret :=
 | RNone
@@ -299,6 +301,15 @@ Inductive ret :=
 | RData (d : list Z) (e : Z)
 | RWriteTo (n e : Z) (lens got : list Z)
 | RReadFrom (n e : Z) (reqs : list Z).
+
+(* UnmarshalStream (chunk.go): c.buf = nil; err := r.ReadBytes(&c.buf); c.rpos = 0.  ReadBytes stores
+   only on success (nil for the empty class); o = the capacity of the slice the reader made. *)
+Definition unmarshal (s : state) (r : option (list Z)) (o : Z) : state :=
+  match r with
+  | Some b => if is_nil b then St [] 0 0 (limit s) true
+              else St (b ++ repeat 0 (Z.to_nat (Z.max (len b) o - len b))) (len b) 0 (limit s) false
+  | None => St [] 0 0 (limit s) true
+  end.
 
 Definition step (s : state) (o : op) (orc : Z) : res (state * ret) :=
   match o with
@@ -316,6 +327,8 @@ Definition step (s : state) (o : op) (orc : Z) : res (state * ret) :=
   | OClear => Ok (clear s, RNone)
   | OWriteTo b => do '(s', (n, e, lens, got)) <- write_to s b; Ok (s', RWriteTo n e lens got)
   | OReadFrom rs => do '(s', (n, e, reqs)) <- read_from_loop rs s 0 []; Ok (s', RReadFrom n e reqs)
+  | OUnmarshal r e => Ok (unmarshal s r orc, RErr (match r with Some _ => 0 | None => e end))
+  | OMarshal => do d <- slice (buf s) (rpos s) (blen s); Ok (s, RData (enc_bytes d) 0)
   end.
 
 (* a whole history: ops with their oracles *)
@@ -354,8 +367,11 @@ Definition op_ok (o : op) : Prop :=
   | ORead n => 0 <= n
   | OReadFixed w => width_ok w
   | OReadFrom rs => Forall (fun r => len (fst (fst r)) <= bufSize /\ byte_list (fst (fst r))) rs
+  | OUnmarshal (Some b) _ => byte_list b
   | _ => True
   end.
+(* UnmarshalStream replaces the buffer by what the stream holds and does not look at the Limit *)
+Definition is_unmarshal (o : op) : bool := match o with OUnmarshal _ _ => true | _ => false end.
 
 Definition is_write (o : op) : bool :=
   match o with OWrite _ | OWriteFixed _ _ | OWriteBytes _ | OReadFrom _ => true | _ => false end.
@@ -444,6 +460,9 @@ Definition qstep (lim : Z) (p q : list Z) (o : op) (r : ret) (p' q' : list Z) : 
       (e = 0 \/ e = ErrSink) /\ (e = 0 -> n = len q)
   | OReadFrom rs, RReadFrom n e _ =>
       0 <= n <= len (all_data rs) /\ q' = q ++ take n (all_data rs) /\ suffix_of p' p
+  | OUnmarshal r e, RErr e' =>
+      p' = [] /\ match r with Some b => e' = 0 /\ q' = b | None => e' = e /\ q' = [] end
+  | OMarshal, RData d e => e = 0 /\ d = enc_bytes q /\ q' = q /\ p' = p
   | _, _ => False
   end.
 
